@@ -4,6 +4,7 @@ import json, os, subprocess, sys, time, fcntl
 V = os.path.dirname(os.path.abspath(__file__))
 TAGSUF = os.environ.get("MW_TAG", "")
 NPROC = int(os.environ.get("VERIF_JOBS", "16"))
+NSHARDS = int(os.environ.get("VERIF_SHARDS", "16"))
 # evidence of runs against anything but /repo (seeded-change experiments) never lands in evidence/
 EVDIR = f"{V}/evidence" if not TAGSUF and os.environ.get("MW_REPO", "/repo") == "/repo" else f"{V}/target/evidence{TAGSUF}"
 
@@ -73,13 +74,13 @@ def run(pid, tier, seed, spec):
     budget = int(os.environ.get("VERIF_BUDGET_S", "300"))
     random_n, hostile_n = (400, 60) if tier == "quick" else (max(2000, budget * 60), 400)
     procs = []
-    for i in range(NPROC):
+    for i in range(NSHARDS):
         out = f"{sd}/C20-{i}.json"
         try:
             os.remove(out)
         except FileNotFoundError:
             pass
-        argv = [binp(), "run", "--seed", str(seed), "--shard", str(i), "--nshards", str(NPROC), "--random", str(random_n), "--hostile", str(hostile_n),
+        argv = [binp(), "run", "--seed", str(seed), "--shard", str(i), "--nshards", str(NSHARDS), "--random", str(random_n), "--hostile", str(hostile_n),
                 "--pinned", f"{V}/protomon/baseline/schema.json", "--shared", f"{V}/protomon/baseline/shared.json", "--out", out]
         procs.append((i, out, subprocess.Popen(argv, stdout=subprocess.PIPE, stderr=subprocess.PIPE, text=True)))
     agg = {"types_checked": 0, "evals": 0, "types_diffed": 0, "diff_evals": 0, "urls_checked": 0, "hostile_decoded": 0, "hostile_rejected": 0, "distinct_shapes": 0, "missing": 0}
